@@ -10,7 +10,7 @@ from checks import c10
 
 PID = "C16"
 RULE = ("Real file_util.py processes in a temp directory. Source image: cassette or disk, written by the tool's own "
-        "containers or by the independent writers (arbitrary leaders / scattered granule chains), holding 1-5 files "
+        "containers or by the independent writers (arbitrary leaders / scattered granule chains; half of the independently written disks have killed directory entries - first byte $00 - in front of and between the live ones), holding 1-5 files "
         "with names in upper, lower or mixed case (in one case of three two files share a name, same or swapped letter case), all kinds (file types 0-3 x both data types), boundary lengths (1..30000 bytes). Target: "
         "--to_cas / --to_dsk / --to_bin; --files absent, a subset spelled in upper / lower / mixed case, or a name "
         "that matches nothing; chains source -> other kind -> back; in two runs of five both --to_cas and --to_dsk are given at once (either order) and each target is judged. Oracle: the independent reader of the target finds "
@@ -24,7 +24,7 @@ ASSUMPTIONS = [
     "compared (a tape has none)",
     "zero-length files are not generated (known finding F-C06-empty-file-ends-listing)",
 ]
-HEALTH = {"files_filter": 0.12, "chain": 0.1, "lowercase_name": 0.12, "to_bin": 0.032, "both_targets": 0.08}
+HEALTH = {"files_filter": 0.12, "chain": 0.1, "lowercase_name": 0.12, "to_bin": 0.032, "both_targets": 0.08, "killed_entries_in_source": 0.04}
 EXHAUSTIVE = {}
 
 _NAMES = ["HELLO", "hello2", "World", "a", "Zz9", "LONGNAME", "mixedCas", "x1", "PROG", "data", "Q", "abc"]
@@ -86,7 +86,7 @@ def _write_source(case, datas, path):
         raw = c10.make_cas([dict(f, data=d) for f, d in zip(files, datas)], lead=rnd.choice([1, 16, 128, 300]),
                            gapflag=rnd.choice([0, 0, 0xFF]))
     else:
-        raw = c10.make_dsk([dict(f, data=d) for f, d in zip(files, datas)], rnd)
+        raw = c10.make_dsk([dict(f, data=d) for f, d in zip(files, datas)], rnd, holes=case["k"] % 2 == 1)
     with open(path, "wb") as fh:
         fh.write(raw)
 
@@ -137,6 +137,8 @@ def execute(case):
     case = dict(case, files=files)
     datas = [filegen.expand(f["data"]) for f in files]
     labels = ["src:" + case["src_kind"], "writer:" + case["writer"]]
+    if case["writer"] == "independent" and case["src_kind"] == "dsk" and case["k"] % 2 == 1:
+        labels.append("killed_entries_in_source")
     if len(set(f["name"].upper() for f in files)) < len(files):
         labels.append("duplicate_name")
     if any(f["name"] != f["name"].upper() for f in files):
